@@ -29,6 +29,8 @@ def run(chk, prog, tier):
     CH.division_sites_rule(chk, prog, roles)
     CH.setter_mode_rule(chk, prog)
     CH.counting_mode_rule(chk, prog, roles)
+    # the invariant (mode in {COUNT, FITTING} => chunk_size >= 2) is preserved by every entry point: they restore both fields
+    PL.restore_rule(chk, prog, roles, rule="KEEP", fields=("assembly_mode", "chunk_size"))
     from checks import C06
     C06.fresh_record_rule(chk, prog, roles, rule="INIT")
     chk.explanation = (
@@ -78,6 +80,58 @@ def kw_rule(chk, prog):
     chk.floor("keyword clearing sites", n, 7)
 
 
+def _premise_holds(prog, fname, var):
+    """structural premise of an audited first-token site (the audit applies only while it holds)"""
+    f = prog.fn(fname)
+    body = prog.body(f)
+    if (fname, var) == ("operand_tok", "all_opd") or var == "all_opd":
+        # a test `<text>[0] == ','` that fails the function precedes the strtok_r call in the same function
+        params = [p["name"] for p in prog.params(f)]
+        for st in kids(body):
+            if any(c.get("kind") == "CallExpr" and callee_name(c) == "strtok_r" for c in walk(st)):
+                return False, "no leading-comma test before the first strtok_r in %s" % fname
+            if st.get("kind") == "IfStmt":
+                c = strip(kids(st)[0])
+                if c.get("kind") == "BinaryOperator" and c.get("opcode") == "==":
+                    l, r = strip(kids(c)[0], casts=True), strip(kids(c)[1], casts=True)
+                    if l.get("kind") == "ArraySubscriptExpr" and ref_name(kids(l)[0]) in params and \
+                            ConstEval(prog).try_eval(kids(l)[1]) == 0 and ConstEval(prog).try_eval(r) == ord(","):
+                        rets = [m for m in walk(kids(st)[1]) if m.get("kind") == "ReturnStmt"]
+                        if rets and all(ConstEval(prog).try_eval(kids(m)[0]) not in (0, None) for m in rets):
+                            return True, ""
+        return False, "no leading-comma test in %s" % fname
+    if var == "instruction_str":
+        # the line parser hands the filtered text on only under a test that its first character is not NUL
+        for fn2, f2 in prog.lib_functions().items():
+            for m, parents in walk_with_parents(prog.body(f2)):
+                if m.get("kind") == "CallExpr" and callee_name(m) in prog.functions and \
+                        fname in _reach(prog, callee_name(m)) and callee_name(m) != fname:
+                    for p in parents:
+                        if p.get("kind") == "IfStmt" and "[0] != " in expr_str(kids(p)[0]):
+                            return True, ""
+        return False, "no caller tests the first character of the filtered line"
+    if var == "imme":
+        # imm_tok is called only in the case of operand type 'i'
+        for fn2, f2 in prog.lib_functions().items():
+            for sw in walk(prog.body(f2)):
+                if sw.get("kind") != "SwitchStmt":
+                    continue
+                for cs in walk(sw):
+                    if cs.get("kind") == "CaseStmt" and ConstEval(prog).try_eval(kids(cs)[0]) == ord("i"):
+                        if any(c.get("kind") == "CallExpr" and callee_name(c) == fname for c in walk(cs)):
+                            return True, ""
+        return False, "%s is not called under `case 'i'`" % fname
+    return True, ""
+
+
+def _reach(prog, fn, _memo={}):
+    from valib import eff as EFF
+    key = (prog.tree_hash, fn)
+    if key not in _memo:
+        _memo[key] = EFF.reachable(EFF.call_graph(prog), [fn])
+    return _memo[key]
+
+
 def null_rule(chk, prog):
     """results of strtok_r / strstr / strchr are tested before use, or the site is audited"""
     from valib import err as ERR
@@ -101,7 +155,8 @@ def null_rule(chk, prog):
             aud = AUDITED_NULL.get((fname, nm))
             key = "NULL/%s/%s" % (fname, nm)
             if aud and "strtok_r" in text and "compared with a pointer" not in text:
-                chk.ok("NULL", key, loc_str(node), "audited: %s" % aud)
+                holds, why = _premise_holds(prog, fname, nm)
+                chk.require(holds, "NULL", key, loc_str(node), "audited: %s" % aud, "the premise of the audit no longer holds: %s" % why)
             elif "tested against something that is not its failure value" in text and "strstr" in text:
                 # strstr(p, lit) == p : a comparison with the haystack pointer is a test of the result
                 chk.ok("NULL", key, loc_str(node), "the strstr result is only compared with a pointer, never dereferenced")
